@@ -147,18 +147,18 @@ namespace c16
         }
       }
       // ---------------------------------------------------------------- oracles
-      const LD al = (LD)alpha; const LD SA = dA.sumabs();
+      const LD al = (LD)alpha; const LD SA = dA.sumabs(); const LD amax = dA.maxabs();
       Poly pone; pone.dim = dim; pone.t.push_back({1.0, {0, 0, 0}});
       std::vector<LD> o_te = blocked_coeffs<DT, IT, dim>(tes, std::vector<Poly>(1, pone)), o_tr = blocked_coeffs<DT, IT, dim>(trs, std::vector<Poly>(1, pone));
       if(pr.kills_trial_const)
         for(int cc = 0; cc < BW; ++cc) for(long i = 0; i < nr; ++i) { LD s = 0, sa = 0; for(long j = 0; j < nbc; ++j) { s += dA(i, j * BW + cc) * o_tr[(size_t)j]; sa += fabsl(dA(i, j * BW + cc) * o_tr[(size_t)j]); }
-          VF_CHECK(fabsl(s) <= tol_of<DT>(kap, std::max(sa, dA.maxabs())), bop_names[kind] << ": (A * const e_" << cc << ")_" << i << " = " << (double)s << " but constant fields are in the kernel"); }
+          VF_CHECK(fabsl(s) <= tol_of<DT>(kap, std::max(sa, amax)), bop_names[kind] << ": (A * const e_" << cc << ")_" << i << " = " << (double)s << " but constant fields are in the kernel"); }
       if(pr.kills_test_const)
         for(int cc = 0; cc < BH; ++cc) for(long j = 0; j < nc; ++j) { LD s = 0, sa = 0; for(long i = 0; i < nbr; ++i) { s += dA(i * BH + cc, j) * o_te[(size_t)i]; sa += fabsl(dA(i * BH + cc, j) * o_te[(size_t)i]); }
-          VF_CHECK(fabsl(s) <= tol_of<DT>(kap, std::max(sa, dA.maxabs())), bop_names[kind] << ": ((const e_" << cc << ")^T A)_" << j << " = " << (double)s << " but constant test fields are annihilated"); }
+          VF_CHECK(fabsl(s) <= tol_of<DT>(kap, std::max(sa, amax)), bop_names[kind] << ": ((const e_" << cc << ")^T A)_" << j << " = " << (double)s << " but constant test fields are annihilated"); }
       if constexpr(same)
         if(pr.symmetric) for(long i = 0; i < nr; ++i) for(long j = i + 1; j < nc; ++j)
-          VF_CHECK(fabsl(dA(i, j) - dA(j, i)) <= tol_of<DT>(kap, dA.maxabs()), bop_names[kind] << ": symmetric form but A(" << i << "," << j << ")=" << (double)dA(i, j) << " A(" << j << "," << i << ")=" << (double)dA(j, i));
+          VF_CHECK(fabsl(dA(i, j) - dA(j, i)) <= tol_of<DT>(kap, amax), bop_names[kind] << ": symmetric form but A(" << i << "," << j << ")=" << (double)dA(i, j) << " A(" << j << "," << i << ")=" << (double)dA(j, i));
       if(kind == BIdentity)
       {
         // mass of every component equals the volume, different components do not couple
